@@ -186,14 +186,31 @@ def _prep(args):
         return seed, None
 
 
+class CaseTimeout(BaseException):
+    """raised by SIGALRM inside a worker: one generated case exceeded its time budget (BaseException so that no
+    `except Exception` in sympy / bartiq / the oracle swallows it)"""
+
+
+def _on_alarm(signum, frame):
+    raise CaseTimeout()
+
+
+CASE_BUDGET_S = 120
+
+
 def _work(args):
     modname, seed, extra, resp_line = args
     import importlib
+    import signal
 
     from .runner import jsonable
 
     mod = importlib.import_module(modname)
     res = Result()
+    budget = getattr(mod, "CASE_BUDGET_S", CASE_BUDGET_S)
+    if budget:
+        signal.signal(signal.SIGALRM, _on_alarm)
+        signal.alarm(budget)
     try:
         spec = mod.gen(seed, extra)
         case = Case(seed, spec).compile(**(mod.compile_kw() if hasattr(mod, "compile_kw") else {}))
@@ -217,11 +234,19 @@ def _work(args):
                     res.disagreement("compile_routine vs compileRoutine (tree)", {"qref": case.qref, "generator_seed": seed},
                                      [d[3] for d in diffs[:3]], [(list(d[0]), d[1], d[2]) for d in diffs[:3]])
         mod.oracle(case, res, extra)
+    except CaseTimeout:
+        # one case ran longer than its budget (sympy's numeric evaluation of huge products, towers of powers, ...): the case is
+        # dropped and counted; termination as such is C17's subject and is examined there with its own retry logic
+        res.stats["case_timeouts"] += 1
+        res.samples.append({"case_timeout": {"generator_seed": seed, "budget_s": budget}})
     except Exception as e:  # harness bug: surface it, do not hide it
         import traceback
 
         res.stats["harness_exception"] += 1
         res.samples.append({"harness_exception": traceback.format_exc()[-800:], "seed": seed})
+    finally:
+        if budget:
+            signal.alarm(0)
     return (dict(res.stats), jsonable(res.violations), jsonable(res.disagreements), jsonable(res.nontrivial), jsonable(res.samples))
 
 
